@@ -306,6 +306,54 @@ def shard(ctx, jobs):
             unbiased(G, ctx, *j[1:])
 
 
+def estimate_test_functions(G, ctx):
+    """`estimate` is the normalised-weight average of ANY test function of the choices: scalar, vector, matrix (outer products for second
+    moments - a repaired defect: the weights were broadcast against the wrong axis, an error unless the particle count equals the
+    first value dimension, then silently wrong), pytree-valued, and bool / int valued (a raw discrete choice, a comparison, a count:
+    the weights must not be cast to the values' dtype).  Compared with the float64 weighted mean of the per-particle values, for
+    particle counts 1, 3 (= the first dimension of the matrix), 4, 7; after init and after resample."""
+    import jax
+    import jax.numpy as jnp
+    import jax.random as jr
+    from fractions import Fraction as Fr
+    from genjax.inference.smc import resample
+    from props import c12
+    fns = {
+        "scalar": lambda c: c["x"],
+        "vector": lambda c: c["v"],
+        "matrix(3,2)": lambda c: jnp.outer(jnp.array([1.0, 2.0, 3.0]) * c["x"], c["v"]),
+        "outer(v,v)": lambda c: jnp.outer(c["v"], c["v"]),
+        "rank3": lambda c: jnp.ones((2, 3, 2)) * c["y"],
+        "pytree": lambda c: {"a": c["x"], "b": (c["v"], c["y"] ** 2)},
+        "bool": lambda c: c["x"] > 0.0,
+        "int": lambda c: jnp.floor(c["y"]).astype(jnp.int32) + 2,
+        "int-vector": lambda c: (c["v"] > 0.0).astype(jnp.int32),
+    }
+    for N in (1, 2, 3, 4, 7):
+        ws = [Fr(k) for k in (1, 2, 5, 3, 1, 8, 2)][:N]
+        p0 = c12.make_particles(G, N, ws, jr.key(ctx.seed + 5))
+        for stage, p in (("init", p0), ("resampled", G.seed(lambda pp: resample(pp, method="systematic"))(jr.key(9), p0))):
+            w = np.exp(np.asarray(p.log_weights, dtype=np.float64) - np.max(np.asarray(p.log_weights, dtype=np.float64)))
+            w = w / w.sum()
+            ch = p.traces.get_choices()
+            for name, fn in fns.items():
+                case = {"kind": "estimate-test-function", "N": N, "stage": stage, "fn": name}
+                vals = jax.vmap(fn)(ch)
+                want = jax.tree_util.tree_map(lambda v: np.tensordot(w, np.asarray(v, dtype=np.float64), axes=(0, 0)), vals)
+                try:
+                    got = p.estimate(fn)
+                    gl, wl = jax.tree_util.tree_leaves(got), jax.tree_util.tree_leaves(want)
+                    ok = len(gl) == len(wl) and all(np.shape(a) == np.shape(b) and np.allclose(np.asarray(a, dtype=np.float64), b, rtol=2e-5, atol=2e-5) for a, b in zip(gl, wl))
+                    if not ok:
+                        ctx.property_failure(None, f"estimate of a {name} test function over {N} particles ({stage}): {[np.asarray(a).tolist() for a in gl][:2]} != the weighted mean "
+                                             f"{[np.asarray(b).tolist() for b in wl][:2]}", case)
+                except Exception as ex:
+                    impl.reset_handlers()
+                    ctx.property_failure(None, f"estimate of a {name} test function over {N} particles ({stage}) raised {type(ex).__name__}: {str(ex)[:120]}", case)
+                ctx.case(sample=case if (N, stage, name) == (3, "init", "matrix(3,2)") else None, nontrivial_key=("estimate-fn", N, stage, name))
+                ctx.count("estimate-test-function")
+
+
 def run(ctx, audit):
     jobs = []
     for nested in (False, True):
@@ -323,6 +371,7 @@ def run(ctx, audit):
     model_self_check(ctx)
     from props import c12
     c12.all_impossible(impl.load(), ctx)      # a dead collection keeps evidence 0 through resample
+    estimate_test_functions(impl.load(), ctx)
     return {"rule": RULE}
 
 
